@@ -7,6 +7,14 @@ PY = '/venv/bin/python -B -m vf.run'
 
 # id -> (engine, category, technique, level text, level_note, design_ref)
 CHECKS = {
+ 'C18': ('VX', 'exploration',
+         'bounded-exhaustive enumeration of db_session forms x configurations x body scripts against a reference outcome function, with leak probes',
+         'Every combination of db_session form (decorator with retry 0-2, context manager, 2-3 nested sessions, generator functions driven by next/send/throw/close, the Flask and Bottle integrations on stub frameworks), configuration (allowed_exceptions / retry_exceptions as lists, callables and raising callables; strict/immediate/serializable/optimistic/ddl/sql_debug) and body script (<= 3 operations over write/flush/commit/rollback/8 exception kinds, a different script per attempt) is executed on real SQLite and compared with a reference outcome function (rows read through an independent connection, number of body executions, propagated exception class), plus leak probes of the thread-local session state, the SQLite transaction lock and a follow-up session.',
+         'Flask and Bottle are stubs that call the real integration code. Undocumented points (exception both allowed and retryable, raising callables, ddl/serializable nested in a plain session, allowed_exceptions on generators) accept every reading and are counted. Later attempts are bounded to <= 1-2 operations.', 'DESIGN.md section 3 C18'),
+ 'C34': ('VX', 'exploration',
+         'bounded-exhaustive enumeration of access-rule sets in every declaration order x users x targets against a reference decision and reading-independent laws',
+         'All rule sets of 1, 2 and (reduced domain) 3 rules over permissions x target entities (with subclass) x groups x roles x labels x entity exclusions x attribute exclusions on both ends of a relationship, evaluated in every rule order, for every user group subset and every entity/attribute/object target, are checked against a reference decision and against reading-independent laws (order-irrelevance, monotonicity, repeatability, to_json never emitting what can_view denies, can_* consistency).',
+         'Rule order is forced through an ordered container substituted for entity._access_rules_[perm] (internal name). For relationship attributes the answer is demanded only when the forward and the reverse reading agree. Repeatability/to_json laws are checked on single rules and the reduced pair domain only.', 'DESIGN.md section 3 C34'),
  'C01': ('QX', 'exploration',
          'bounded-exhaustive enumeration of a typed expression grammar in every query position through three front ends against a typed three-valued reference evaluator',
          'Every expression of a typed grammar (int/float/Decimal arithmetic, comparisons and chains, None tests, in/not in over lists/collections/subqueries, and/or/not, conditional expressions, string operations and slices, casts, date parts and date arithmetic, relationship navigation, aggregates over collections and nested generators, between/coalesce/concat/f-strings, hybrid methods, isinstance) at depth 1 (3,891 expressions + 33 leaves; thorough adds 135,865 depth-2 expressions with operand lists pruned by type) in every position (filter, projection, (p.id, E) tuple, order_by asc/desc, nested subquery, aggregate argument) with column, constant and bound-parameter operands, through select("text"), select(generator) and Entity.select(lambda), on SQLite over a pairwise product of boundary values, compared per row with a reference evaluator working on the expression tree (set / bag / sequence-up-to-ties as documented); failures are reduced to the minimal failing operator and its operand value classes.',
